@@ -607,3 +607,128 @@ func runLint(which string) {
 		fmt.Printf("%s: %s | %s\n", p.Pos(h.Pos), h.Construct, h.Msg)
 	}
 }
+
+// ---------- L3: reported byte count vs bytes consumed ----------
+
+// evalConstInt folds integer constants through +,-,* and identical-phi.
+func evalConstInt(v ssa.Value, depth int) (int64, bool) {
+	if depth > 16 {
+		return 0, false
+	}
+	v = stripConv(v)
+	switch x := v.(type) {
+	case *ssa.Const:
+		return constInt(x)
+	case *ssa.BinOp:
+		a, ok1 := evalConstInt(x.X, depth+1)
+		b, ok2 := evalConstInt(x.Y, depth+1)
+		if !ok1 || !ok2 {
+			return 0, false
+		}
+		switch x.Op {
+		case token.ADD:
+			return a + b, true
+		case token.SUB:
+			return a - b, true
+		case token.MUL:
+			return a * b, true
+		}
+	case *ssa.Phi:
+		var val int64
+		first := true
+		for _, e := range x.Edges {
+			k, ok := evalConstInt(e, depth+1)
+			if !ok {
+				return 0, false
+			}
+			if first {
+				val, first = k, false
+			} else if k != val {
+				return 0, false
+			}
+		}
+		return val, !first
+	}
+	return 0, false
+}
+
+// byteCountMismatch checks a decoder `f(buf []byte) (int, error)`: on every accepting return
+// the reported count is a constant equal to the largest constant upper bound of the slices /
+// indices of buf that may have been read on a path to that return. Returns (decided, ok, msg).
+func byteCountMismatch(p *Program, fn *ssa.Function) (decided bool, ok bool, msg string, pos token.Pos) {
+	var buf *ssa.Parameter
+	for _, prm := range fn.Params {
+		if isByteSlice(prm.Type()) {
+			buf = prm
+			break
+		}
+	}
+	res := fn.Signature.Results()
+	if buf == nil || res.Len() != 2 || !isInteger(res.At(0).Type()) || !isErrorType(res.At(1).Type()) {
+		return false, true, "", token.NoPos
+	}
+	acc, err := acceptReturns(fn, AcceptNilErr)
+	if err != nil || len(acc) == 0 {
+		return false, true, "", token.NoPos
+	}
+	type acc1 struct {
+		blk  *ssa.BasicBlock
+		hi   int64
+		open bool
+	}
+	var accesses []acc1
+	for _, b := range fn.Blocks {
+		for _, in := range b.Instrs {
+			switch x := in.(type) {
+			case *ssa.Slice:
+				if x.X != ssa.Value(buf) {
+					continue
+				}
+				if x.High == nil {
+					accesses = append(accesses, acc1{b, 0, true})
+				} else if k, ok := evalConstInt(x.High, 0); ok {
+					accesses = append(accesses, acc1{b, k, false})
+				} else {
+					accesses = append(accesses, acc1{b, 0, true})
+				}
+			case *ssa.IndexAddr:
+				if x.X != ssa.Value(buf) {
+					continue
+				}
+				if k, ok := evalConstInt(x.Index, 0); ok {
+					accesses = append(accesses, acc1{b, k + 1, false})
+				} else {
+					accesses = append(accesses, acc1{b, 0, true})
+				}
+			}
+		}
+	}
+	if len(accesses) == 0 {
+		return false, true, "", token.NoPos
+	}
+	decided = true
+	ok = true
+	for _, a := range acc {
+		n, isConst := evalConstInt(retValue(a.ret, 0), 0)
+		var max int64
+		open := false
+		for _, ac := range accesses {
+			if ac.blk == a.ret.Block() || blockReaches(fn, ac.blk, a.ret.Block()) {
+				if ac.open {
+					open = true
+				} else if ac.hi > max {
+					max = ac.hi
+				}
+			}
+		}
+		if open || !isConst {
+			continue // not decidable for this return (open-ended slice or computed count)
+		}
+		if n != max {
+			ok = false
+			pos = instrPos(a.ret)
+			msg = fmt.Sprintf("%s reports %d bytes read on this accepting return, but the input buffer was read up to offset %d", funcKey(fn), n, max)
+		}
+	}
+	return
+}
